@@ -157,6 +157,21 @@ REG["C06"] = {
                     "the 1-based line number of the `$` line (LineParser)", "CRLF handling of str::lines", "that language tokens are compared as written (`languages.contains`)"],
 }
 
+REG["C13"] = {
+    "units": ["capture"],
+    "scope": "PARTIAL — only the last sentence of the property: 'The only transformations are the documented ones: every CR LF pair becomes LF unless keep_crlf is set (for outputs of "
+             "any size), and ANSI escape sequences are removed only when strip_ansi_escaping is set.' newline::replace_crlf(bytes) == drop_cr(bytes) (left to right, a CR directly "
+             "followed by LF is dropped, nothing else changes; recursion terminates: decreases bytes.len()); TestCase::render_output == rendered (CRLF step skipped iff keep_crlf == Some(true); "
+             "ANSI stripping applied iff strip_ansi_escaping == Some(true)).",
+    "assumptions": [
+        "R18/R36: Cow<[u8]> modelled as Vec<u8> with the same content; [a, b].concat() concatenates; R35: windows(2).position(..) as an inline search loop; byte-string const CRLF as a function",
+        "strip_ansi_escapes::strip is uninterpreted (strip_ansi)",
+        "stack depth of the recursion (one frame per CR LF pair) and running time are outside the contract",
+    ],
+    "not_decided": ["that the shell receives the expression verbatim (template + bash)", "stdout/stderr separation and merge order (subprocess, pipes)",
+                    "per-test-case attribution of output in the single-script executor (divider parsing)", "exit code capture", "where render_output is applied (subprocess_runner)"],
+}
+
 VX_NOTE = ("Trusted: Verus/Z3; the extractor's rewrite rules (DESIGN §4.2, each firing is logged in evidence.rewrites_fired); "
            "prelude.rs shims and assume_specifications (mechanically scanned into evidence.trusted_base); "
            "machine integers are NOT idealised (usize overflow is an obligation).")
@@ -197,6 +212,10 @@ LEVELS["C06"] = {"category": "proof", "technique": "Verus postconditions on extr
     "text": "Unbounded proof over all lines / all documents (as sequences of lines) of the Markdown tokenizer: what is a fence, where a block ends, that every consumed line is in the returned token "
             "with its number, that all str slicing is on char boundaries. Partial: the parser on top of the tokenizer (titles, body grammar, YAML) is out of reach and stated as not decided.",
     "design_ref": "DESIGN.md §5 C06", "note": VX_NOTE}
+LEVELS["C13"] = {"category": "proof", "technique": "Verus postconditions on extracted newline::replace_crlf and TestCase::render_output",
+    "text": "Unbounded proof over all byte strings of the two documented output transformations (CRLF -> LF unless keep_crlf; ANSI stripping only when asked). "
+            "Partial: command transmission and byte-exact capture through bash/subprocess are out of reach and stated as not decided.",
+    "design_ref": "DESIGN.md §5 C13", "note": VX_NOTE}
 
 NOT_APPLICABLE = [
     {"property_id": "C07", "reason": "Cram parsing: reachable only by assuming contracts for the regex-based line classification; lowest assurance per hour, not built (DESIGN §10)"},
@@ -204,7 +223,6 @@ NOT_APPLICABLE = [
     {"property_id": "C09", "reason": "composition generate->parse->validate through format!-heavy rendering and the regex crate; contracts on the pieces in reach do not compose without a verified parser (DESIGN §10)"},
     {"property_id": "C10", "reason": "same composition plus MarkdownIterator; no contract within reach expresses byte-for-byte preservation through the regex-based tokenizer (DESIGN §10)"},
     {"property_id": "C12", "reason": "a property of bash executing bash_runner.template; no Rust function's postcondition can state it (DESIGN §10)"},
-    {"property_id": "C13", "reason": "being built (CRLF kernel, partial) — not yet claimed"},
     {"property_id": "C15", "reason": "decision is interleaved with process spawning/TempDir/Instant inside execute_all; a modular contract would need almost the whole body behind external_body stubs (DESIGN §10)"},
     {"property_id": "C17", "reason": "reader is serde_yaml (external), writer is format!; an inverse law needs the parser's semantics (DESIGN §10)"},
     {"property_id": "C18", "reason": "filesystem effects and Drop of tempfile::TempDir across process exits; outside any function contract (DESIGN §10)"},
